@@ -145,7 +145,7 @@ def run_pyvc(cfg, rep, tier):
     from pyvc import api
     modnames = list(cfg.HARNESS_MODULES)
     _load(modnames)
-    keys = [k for k in api.HARNESSES if k[0] == cfg.PROP]
+    keys = [k for k in api.HARNESSES if k[0] == cfg.PROP] + [tuple(k) for k in getattr(cfg, "EXTRA_HARNESSES", [])]
     timeout_ms = 30000 if tier == "quick" else 120000
     tasks = []
     for k in keys:
@@ -182,10 +182,10 @@ def run_pyvc(cfg, rep, tier):
         if r["crash"]:
             hs["crash"] = r["crash"]
             rep.crashes.append("%s %s: %s" % (hk, r["case"], r["crash"][-400:]))
-        if not r["cover_ok"] and not r["crash"]:
+        if not r["cover_ok"] and not r["crash"] and not r["undecided"]:
             hs["cover"] = False
             rep.crashes.append("%s %s: vacuous harness (no feasible completed path)" % (hk, r["case"]))
-        if not r["obligs"] and not r["crash"]:
+        if not r["obligs"] and not r["crash"] and not r["undecided"]:
             rep.crashes.append("%s %s: zero obligations" % (hk, r["case"]))
         for u in r["undecided"]:
             hs["undecided"].append(u)
